@@ -34,13 +34,15 @@ def run(an: Analysis, rep):
     rep.rule("R07.3", "strictness guards dominate every raw numeric return; only dicts and lists are built", 5)
     rep.rule("R07.4", "default hiding is injective", 15)
     rep.rule("R07.5", "no decimal text conversion of unbounded integers", 0)
+    from .common import purity
+    rep.run(purity, an, rep, "R07.P", ["to_json", "from_json"])
     root, defs = load_schema(an)
     enc, cdec = find_json_functions(an)
-    r071(an, rep, enc, cdec, defs)
-    r072(an, rep, enc, cdec, defs)
-    r073(an, rep, enc)
-    r074(an, rep)
-    r075(an, rep, enc, cdec)
+    rep.run(r071, an, rep, enc, cdec, defs)
+    rep.run(r072, an, rep, enc, cdec, defs)
+    rep.run(r073, an, rep, enc)
+    rep.run(r074, an, rep)
+    rep.run(r075, an, rep, enc, cdec)
     rep.stats.update(an.stats([an.interp("to_json")[0], an.interp("from_json")[0]]))
 
 
